@@ -1,5 +1,197 @@
-"""MATRIX placeholder (implemented below in later commits)."""
+"""MATRIX: impl matrix and result types (DESIGN §4 MATRIX).
+
+Two independent sources: (1) the driver's impl table; (2) a generated, compile-only witness crate
+that names `bva` as an external user would and ascribes the result type of every
+LHS kind x RHS kind x operator x owned/borrowed form. The witness crate is only type-checked
+(`cargo check`), never run. Negative facts have compile_fail doctests with a compiling twin.
+"""
+import os
+import shutil
+import subprocess
+
+from . import extract, mir
+
+WITNESS = os.path.join(extract.VERIF, "witness")
+
+VEC_KINDS = [
+    ("Bvf<u8, 1>", "Bvf::<u8, 1>::zeros(8)"),
+    ("Bvf<u32, 3>", "Bvf::<u32, 3>::zeros(70)"),
+    ("Bvf<u128, 1>", "Bvf::<u128, 1>::zeros(100)"),
+    ("Bvf<usize, 2>", "Bvf::<usize, 2>::zeros(100)"),
+    ("Bvd", "Bvd::zeros(200)"),
+    ("Bv", "Bv::zeros(200)"),
+]
+UINTS = ["u8", "u16", "u32", "u64", "u128", "usize"]
+BINOPS = [("+", "+="), ("-", "-="), ("*", "*="), ("/", "/="), ("%", "%="), ("&", "&="), ("|", "|="), ("^", "^=")]
+SHIFTS = [("<<", "<<="), (">>", ">>=")]
+
+
+def generate(parts):
+    fns = []
+    n = 0
+    if "ops" in parts:
+        for li, (lt, lc) in enumerate(VEC_KINDS):
+            body = []
+            rhs_kinds = [(rt, rc) for rt, rc in VEC_KINDS] + [(u, "1%s" % u) for u in UINTS]
+            for rt, rc in rhs_kinds:
+                for op, aop in BINOPS:
+                    body.append("    {{ let a: {lt} = {lc}; let b: {rt} = {rc}; let _: {lt} = a.clone() {op} b.clone(); let _: {lt} = &a {op} b.clone(); "
+                                "let _: {lt} = a.clone() {op} &b; let _: {lt} = &a {op} &b; let mut c = a.clone(); c {aop} b.clone(); c {aop} &b; let _: {lt} = c; }}"
+                                .format(lt=lt, lc=lc, rt=rt, rc=rc, op=op, aop=aop))
+                    n += 6
+            for u in UINTS:
+                for op, aop in SHIFTS:
+                    body.append("    {{ let a: {lt} = {lc}; let k: {u} = 1; let _: {lt} = a.clone() {op} k; let _: {lt} = &a {op} k; let _: {lt} = a.clone() {op} &k; "
+                                "let _: {lt} = &a {op} &k; let mut c = a.clone(); c {aop} k; c {aop} &k; let _: {lt} = c; }}"
+                                .format(lt=lt, lc=lc, u=u, op=op, aop=aop))
+                    n += 6
+            body.append("    {{ let a: {lt} = {lc}; let _: {lt} = !a.clone(); let _: {lt} = !&a; }}".format(lt=lt, lc=lc))
+            n += 2
+            fns.append("#[allow(unused)]\npub fn ops_%d() {\n%s\n}\n" % (li, "\n".join(body)))
+    if "cmp" in parts:
+        body = []
+        for lt, lc in VEC_KINDS:
+            for rt, rc in VEC_KINDS:
+                body.append("    {{ let a: {lt} = {lc}; let b: {rt} = {rc}; let _: bool = a == b; let _: bool = a != b; let _: bool = a < b; "
+                            "let _: bool = a <= b; let _: bool = a > b; let _: bool = a >= b; "
+                            "let _: Option<std::cmp::Ordering> = a.partial_cmp(&b); }}".format(lt=lt, lc=lc, rt=rt, rc=rc))
+                n += 7
+            body.append("    {{ let a: {lt} = {lc}; let _: std::cmp::Ordering = Ord::cmp(&a, &a.clone()); fn is_eq<T: Eq + std::hash::Hash>(_: &T) {{}} is_eq(&a); }}"
+                        .format(lt=lt, lc=lc))
+            n += 2
+        fns.append("#[allow(unused)]\npub fn cmps() {\n%s\n}\n" % "\n".join(body))
+    if "conv" in parts:
+        body = []
+        for st, sc in VEC_KINDS:
+            # towards Bvd / Bv: From, by reference and by value
+            for tt in ("Bvd", "Bv"):
+                body.append("    {{ let s: {st} = {sc}; let _: {tt} = <{tt}>::from(&s); let _: {tt} = <{tt}>::from(s.clone()); "
+                            "let _: Result<{tt}, std::convert::Infallible> = <{tt}>::try_from(&s); }}".format(st=st, sc=sc, tt=tt))
+                n += 3
+            # towards Bvf: TryFrom with ConvertionError
+            for tt, _ in VEC_KINDS[:4]:
+                body.append("    {{ let s: {st} = {sc}; let _: Result<{tt}, ConvertionError> = <{tt}>::try_from(&s); }}".format(st=st, sc=sc, tt=tt))
+                n += 1
+                if not st.startswith("Bvf"):
+                    # by value: provided for Bvd / Bv sources (a by-value Bvf -> Bvf impl would overlap the reflexive
+                    # blanket impl, so the crate offers that direction by reference only)
+                    body.append("    {{ let s: {st} = {sc}; let _: Result<{tt}, ConvertionError> = <{tt}>::try_from(s.clone()); }}".format(st=st, sc=sc, tt=tt))
+                    n += 1
+            for u in UINTS:
+                body.append("    {{ let s: {st} = {sc}; let _: Result<{u}, ConvertionError> = <{u}>::try_from(&s); "
+                            "let _: Result<{u}, ConvertionError> = <{u}>::try_from(s.clone()); }}".format(st=st, sc=sc, u=u))
+                n += 2
+        for u in UINTS:
+            body.append("    {{ let x: {u} = 1; let _: Bvd = Bvd::from(x); let _: Bvd = Bvd::from(&x); let _: Bv = Bv::from(x); let _: Bv = Bv::from(&x); "
+                        "let _: Result<Bvf<u8, 1>, ConvertionError> = Bvf::<u8, 1>::try_from(x); let _: Result<Bvf<u32, 3>, ConvertionError> = Bvf::<u32, 3>::try_from(&x); "
+                        "let sl: &[{u}] = &[x]; let _: Bvd = Bvd::from(sl); let _: Bv = Bv::from(sl); let _: Result<Bvf<u64, 2>, ConvertionError> = Bvf::<u64, 2>::try_from(sl); }}"
+                        .format(u=u))
+            n += 9
+        body.append("    { let _: Bit = Bit::from(1u8); let _: Bit = Bit::from(true); let _: bool = bool::from(Bit::One); let _: u128 = u128::from(Bit::One); }")
+        n += 4
+        fns.append("#[allow(unused)]\npub fn convs() {\n%s\n}\n" % "\n".join(body))
+    neg = '''
+/// There is no infallible conversion into a fixed-capacity vector.
+/// ```compile_fail,E0277
+/// use bva::*;
+/// let d = Bvd::zeros(300);
+/// let _f: Bvf<u8, 1> = (&d).into();
+/// ```
+/// Twin that differs only in the offending call:
+/// ```no_run
+/// use bva::*;
+/// let d = Bvd::zeros(300);
+/// let _f: Bvf<u8, 1> = (&d).try_into().unwrap();
+/// ```
+pub struct NoFromIntoFixed;
+
+/// The word-type trait cannot be named (and therefore not implemented) outside the crate.
+/// ```compile_fail,E0603
+/// use bva::utils::Integer;
+/// ```
+/// ```no_run
+/// use bva::BitVector;
+/// ```
+pub struct IntegerIsSealed;
+
+/// A borrowed operand cannot be mutated through the operator traits.
+/// ```compile_fail,E0596
+/// use bva::*;
+/// let a = Bvd::zeros(8);
+/// let r = &a;
+/// r.push(Bit::One);
+/// ```
+/// ```no_run
+/// use bva::*;
+/// let mut a = Bvd::zeros(8);
+/// let r = &mut a;
+/// r.push(Bit::One);
+/// ```
+pub struct SharedBorrowIsImmutable;
+'''
+    src = "//! Generated by rules/matrix.py - compile-only witness of the bva impl matrix. Never run.\n#![allow(clippy::all)]\nuse bva::*;\n\n" \
+          + "\n".join(fns) + neg
+    return src, n
 
 
 def run(ctx, rep, parts):
-    rep.notes.append("MATRIX witness crate not built yet")
+    src, n = generate(parts)
+    os.makedirs(os.path.join(WITNESS, "src"), exist_ok=True)
+    with open(os.path.join(WITNESS, "Cargo.toml"), "w") as fh:
+        fh.write('[package]\nname = "bva-witness"\nversion = "0.0.0"\nedition = "2021"\n\n[workspace]\n\n[lib]\ndoctest = true\n\n'
+                 '[dependencies]\nbva = { path = "%s" }\n' % ctx.repo)
+    with open(os.path.join(WITNESS, "src", "lib.rs"), "w") as fh:
+        fh.write(src)
+    lock = os.path.join(ctx.repo, "Cargo.lock")
+    env = dict(os.environ, CARGO_NET_OFFLINE="true")
+    tgt = os.path.join(WITNESS, "target")
+    env["CARGO_TARGET_DIR"] = tgt
+    r = subprocess.run(["cargo", "check", "--offline", "--lib"], cwd=WITNESS, env=env, stdout=subprocess.PIPE,
+                       stderr=subprocess.STDOUT, text=True)
+    key = "witness crate (%s)" % "+".join(parts)
+    if r.returncode == 0:
+        rep.ok("MATRIX", key, "%d operator/comparison/conversion forms type-check with the ascribed result types (cargo check, never run)" % n)
+    else:
+        errs = [l for l in r.stdout.splitlines() if l.startswith("error")][:6]
+        first = r.stdout[r.stdout.find("error"):][:1500]
+        rep.violation("MATRIX", key, "the witness crate no longer type-checks: a form of the impl matrix is missing or has another result type: %s"
+                      % "; ".join(errs), detail=first)
+    rep.count("MATRIX forms ascribed", n)
+    # negative witnesses (compile_fail doctests + compiling twins), nightly so that the error codes are checked
+    r = subprocess.run(["cargo", "+nightly", "test", "--offline", "--doc"], cwd=WITNESS,
+                       env=dict(env, CARGO_TARGET_DIR=os.path.join(WITNESS, "target-nightly")),
+                       stdout=subprocess.PIPE, stderr=subprocess.STDOUT, text=True)
+    ok = r.returncode == 0 and "test result: ok" in r.stdout
+    import re
+    m = re.search(r"test result: (\w+)\. (\d+) passed; (\d+) failed", r.stdout)
+    if ok:
+        rep.ok("MATRIX-NEG", "compile_fail witnesses", "negative facts hold: %s doctests (compile_fail with error code + compiling twins; no_run, nothing of bva is executed)"
+               % (m.group(2) if m else "?"))
+    else:
+        rep.violation("MATRIX-NEG", "compile_fail witnesses", "a negative witness compiles or a twin fails: %s" % r.stdout[-800:])
+    # impl table cross-check: Output of every operator impl is the LHS's underlying type
+    crate = ctx.crate("dbg")
+    bad = []
+    cnt = 0
+    for imp in crate.impls:
+        h = imp["hdr"]
+        tr = h.get("trait", "").split("::")[-1]
+        if tr in ("Add", "Sub", "Mul", "Div", "Rem", "BitAnd", "BitOr", "BitXor", "Shl", "Shr", "Not"):
+            fam = mir.ty_family(h["self"])
+            if fam not in ("Bvf", "Bvd", "Bv"):
+                continue
+            out = [it for it in imp["items"] if it["name"] == "Output"]
+            cnt += 1
+            if not out:
+                bad.append("%s: no Output" % imp["path"])
+                continue
+            want = mir.short_ty(h["self"]).lstrip("&")
+            got = mir.short_ty(out[0]["ty"])
+            if got != want:
+                bad.append("%s for %s has Output = %s" % (tr, mir.short_ty(h["self"]), got))
+    if bad:
+        rep.violation("MATRIX-TABLE", "operator Output types", "; ".join(bad[:5]))
+    else:
+        rep.ok("MATRIX-TABLE", "operator Output types", "%d operator impls: Output is the left operand's own type" % cnt)
+    rep.floor("operator impls in the impl table", cnt, 600)
+    shutil.rmtree(os.path.join(WITNESS, "target-nightly", "debug", "incremental"), ignore_errors=True)
